@@ -239,7 +239,16 @@ def run(p: Program, rep: Report, tier: str) -> None:
                 okq = True
                 rep.ok("R13.3", f"iri_to_uri = quote(iri, safe={sv!r}); safe set free of CR LF NUL SP and non-ASCII")
         else:
-            rep.violation("R13.3", construct(iri, r), where(iri, r), "iri_to_uri does not return urllib.parse.quote(iri, ...)")
+            # not quote(): returned as it came (or after a whole-string operation) = nothing is escaped: violation. Rebuilt character by
+            # character / byte by byte (a join over an encoding of the text through a table) = an escaper of its own, which this rule
+            # does not evaluate: UNDECIDED
+            pname = iri.params[0] if iri.params else "iri"
+            rv = r.value
+            per_unit = any(isinstance(x, (ast.GeneratorExp, ast.ListComp)) for x in ast.walk(rv)) or any(isinstance(x, ast.Call) and isinstance(x.func, ast.Attribute) and x.func.attr in ("translate", "sub") for x in ast.walk(rv))
+            if per_unit and any(isinstance(x, ast.Name) and x.id == pname for x in ast.walk(rv)):
+                rep.undecide("R13.3", f"iri_to_uri escapes with an implementation of its own ({' '.join(ast.unparse(rv).split())[:60]}): which characters it leaves unescaped is not evaluated")
+            else:
+                rep.violation("R13.3", construct(iri, r), where(iri, r), "iri_to_uri does not return urllib.parse.quote(iri, ...)")
     if not rets:
         rep.undecide("R13.3", "iri_to_uri has no return")
     redirect_location_provenance(p, rep, "R13.3")
